@@ -62,6 +62,14 @@ Theorem C05_tb_write_equals_circuit ss curr lhs : (forall i, wf_shape (ss i) = t
 Proof. exact (tb_write_equals_circuit ss curr lhs). Qed.
 Print Assumptions C05_tb_write_equals_circuit.
 
+(* a memory row written from a testbench (MemoryData._Row branch + _PyMemoryState.write with a mask) gets exactly the
+   value a signal of the row's shape would get: rows are addressed like signals by the theorems above *)
+Theorem C05_row_write_like_signal s old start stop rhs : wf_shape s = true -> in_range s old ->
+  0 <= start <= stop -> stop <= width s ->
+  tb_row_write s old start stop rhs = tb_sig_write s old start stop rhs.
+Proof. exact (tb_row_write_eq_sig s old start stop rhs). Qed.
+Print Assumptions C05_row_write_like_signal.
+
 Theorem C05_write_keeps_normalised ss curr lhs : (forall i, wf_shape (ss i) = true) -> sig_ok ss lhs ->
   forall v nx, normalised ss nx -> normalised ss (tb_set curr lhs v nx).
 Proof. intros Hss Hsig v nx Hn. apply assign_tb_normalised; auto. Qed.
